@@ -16,6 +16,8 @@ func (f *FileEnt) IsDir() bool {
 }
 
 func (ref *FileEnt) Qid() p9p.Qid {
+	ref.Lock()
+	defer ref.Unlock()
 	return ref.Info.Qid
 }
 func (h FileHandle) Qid() p9p.Qid {
@@ -45,16 +47,16 @@ func (ref *FileEnt) OpenDir(ctx context.Context,
 
 	dirs := []p9p.Dir{dotdot}
 	for _, file := range ref.children {
-		dirs = append(dirs, file.Info)
+		dirs = append(dirs, file.info())
 	}
 	return (&dirList{dirs, false}).Next, nil
 }
 func (h FileHandle) OpenDir(ctx context.Context) (p9p.ReadNext, error) {
 	var dotdot p9p.Dir
 	if len(h.parents) == 0 {
-		dotdot = withName("..", h.ent.Info)
+		dotdot = withName("..", h.ent.info())
 	} else {
-		dotdot = withName("..", h.parents[len(h.parents)-1].Info)
+		dotdot = withName("..", h.parents[len(h.parents)-1].info())
 	}
 
 	return h.ent.OpenDir(ctx, dotdot)
@@ -83,7 +85,7 @@ func (h FileHandle) Remove(ctx context.Context) error {
 
 	p := h.parents[len(h.parents)-1]
 	// TODO(frobnitzem): consider using h.Name here?
-	err := p.unlink_child(h.ent.Info.Name, h.ent)
+	err := p.unlink_child(h.ent.info().Name, h.ent)
 	if err == nil { // remove parent -> child ref count
 		h.ent.decref()
 	}
@@ -98,11 +100,13 @@ func (ref *FileEnt) Walk(names ...string) []*FileEnt {
 	var i int
 
 	for i = 0; i < len(names); i++ {
-		var found bool
-		ref, found = ref.children[names[i]]
+		ref.Lock()
+		next, found := ref.children[names[i]]
+		ref.Unlock()
 		if !found {
 			break
 		}
+		ref = next
 		ans[i] = ref
 	}
 	return ans[:i]
@@ -201,7 +205,7 @@ func (h FileHandle) Walk(ctx context.Context, names ...string) ([]p9p.Qid, p9p.D
 
 	qids = make([]p9p.Qid, len(ans))
 	for i, a := range ans {
-		qids[i] = a.Info.Qid
+		qids[i] = a.Qid()
 	}
 
 	return qids, rh, nil
@@ -241,13 +245,16 @@ func (h FileHandle) createImpl(fname string, mode uint32) (FileHandle, error) {
 }
 
 func (ref *FileEnt) Stat(ctx context.Context) (p9p.Dir, error) {
-	return ref.Info, nil
+	return ref.info(), nil
 }
 func (h FileHandle) Stat(ctx context.Context) (p9p.Dir, error) {
 	return h.ent.Stat(ctx)
 }
 
 func (ref *FileEnt) WStat(ctx context.Context, dir p9p.Dir) error {
+	ref.Lock()
+	defer ref.Unlock()
+
 	if dir.Mode != ^uint32(0) {
 		ref.Info.Mode = dir.Mode
 	}
